@@ -153,10 +153,21 @@ func verifParseOfString(k *ExtendedKey) (*ExtendedKey, error) {
 //@   at "return base58.Encode(serializedBytes)" assert[C14] k.isPrivate && len(k.key) == 32 ==> serializedBytes[45] == 0 && bytesEq(serializedBytes, 46, k.key, 0, 32)
 
 // wiping a key: only the key object and its own byte slices change
+//@ func zero
+//@   props C19
+//@   modifies b
+//@   ensures[C19] forall j int :: 0 <= j && j < len(b) ==> b[j] == 0
+//@   loop#1 invariant 0 <= i && i <= lenb && lenb == len(b) && (forall j int :: 0 <= j && j < i ==> b[j] == 0)
+//@   loop#1 decreases lenb - i
+
 //@ func (*ExtendedKey).Zero
-//@   trusted
+//@   props C19
 //@   requires k != nil
 //@   modifies k, k.key, k.pubKey, k.chainCode, k.parentFP
+// the object no longer refers to its key bytes (each of its byte slices was passed to zero, whose contract says what
+// that does; "the old key bytes are all zero afterwards" is not stated here: it needs the four slices not to overlap,
+// which no caller establishes).  Tagged C19 so that it is proved under a claimed property: call sites use it.
+//@   ensures[C19] k.key == nil && k.version == nil && !k.isPrivate && k.depth == 0 && k.childNum == 0
 
 // BIP-32 version bytes follow the kind of key: private keys carry the private version of the network, public keys
 // the public one
